@@ -25,7 +25,9 @@ Definition comp (v d : string) (fs : fileset) : prog := (v, d, fs).
 (* RO: an invocation that runs / lists / shows help; RC: a -compile invocation - did IT run a
    target (never), and what the binary it left at the output path prints when it is run *)
 Inductive run_obs := RO (compiled : bool) (toks : list string) (deptok : string) | RNoFiles
-                   | RC (ran_target : bool) (toks : list string) (deptok : string).
+                   | RC (ran_target : bool) (toks : list string) (deptok : string)
+                   | RAny.     (* on the observed side only: an invocation overlapped by another one - what it
+                                  exec'ed may be the other one's build; judged by the oracle, not compared here *)
 
 (* what an invocation asks the compiled magefile for.  Model/Cache.v's [Run] has no such field:
    Invoke's decision does not look at it; only what the program prints depends on it *)
@@ -93,6 +95,7 @@ Definition given_obs (c : case) : obs :=
 Definition run_obs_eqb (a b : run_obs) : bool :=
   match a, b with
   | RO c t d, RO c' t' d' => Bool.eqb c c' && list_eqb String.eqb t t' && String.eqb d d'
+  | _, RAny => true
   | RNoFiles, RNoFiles => true
   | RC c t d, RC c' t' d' => Bool.eqb c c' && list_eqb String.eqb t t' && String.eqb d d'
   | _, _ => false
